@@ -716,6 +716,10 @@ def install(ex):
         S = st(I)
         if isinstance(chans, list) and not chans:
             chans = Channels(z3.K(Z, False), z3.BoolVal(True))
+        if chans is None:
+            # type invariant of _waiters entries, relied on by pushjob's `channel in watching or not watching`
+            I.oblige("waiters.entry_watch_list_is_a_list", z3.BoolVal(False), meta={"channels": "None"})
+            raise PathCut()
         if not isinstance(chans, Channels):
             raise Undecided("waiter channels")
         S["W"] = z3.Store(S["W"], ev.z, True)
@@ -876,7 +880,7 @@ def inv_clauses(S, j, w, c, k, i):
     cl["I9_pushed_unfinished_jobs_are_known"] = z3.Implies(
         z3.And(valid_job(S, j), z3.Select(S["j_serial"], j) != 0, z3.Not(done)), known(S, j))
     cl["I10_timeoutq_entries"] = z3.And(z3.Select(S["TQ"], j) >= 0,
-                                        z3.Implies(z3.Select(S["TQ"], j) > 0, valid_job(S, j)))
+                                        z3.Implies(z3.Select(S["TQ"], j) > 0, z3.And(valid_job(S, j), z3.Select(S["j_serial"], j) != 0)))
     # I12/I13: an error or a drop deadline is only ever recorded on a finished job
     cl["I12_error_implies_done"] = z3.Implies(z3.And(valid_job(S, j), z3.Not(z3.Select(S["j_err_none"], j))), done)
     cl["I13_deadline_implies_done"] = z3.Implies(z3.And(valid_job(S, j), z3.Select(S["j_deadline"], j) != 0), done)
@@ -890,6 +894,9 @@ def inv_clauses(S, j, w, c, k, i):
         z3.And(valid_job(S, j), z3.Select(S["j_serial"], j) != 0),
         z3.And(z3.Select(S["e_set"], ev) == done, ev >= 1, ev < S["alloc"], z3.Not(z3.Select(S["is_job"], ev)),
                z3.Select(S["ev_owner"], ev) == j))
+    # I16 (C17, third arm of finish / kill / timeout): every unfinished pushed job has an entry in the timeout heap
+    cl["I16_unfinished_job_has_a_timeout_entry"] = z3.Implies(
+        z3.And(valid_job(S, j), z3.Select(S["j_serial"], j) != 0, z3.Not(done)), z3.Select(S["TQ"], j) >= 1)
     cl["I11_nowhere_without_serial"] = z3.Implies(
         z3.And(valid_job(S, j), z3.Select(S["j_serial"], j) == 0),
         z3.And(holder == 0, conn == 0))
@@ -916,7 +923,7 @@ def _mentions(f, v):
 _clause_vars = {}
 
 
-EXTENDED = False      # C17 adds the clauses I14 / I15 to the invariant (set by contracts/c17.py)
+EXTENDED = False      # C17 adds the clauses I14 / I15 / I16 to the invariant (set by contracts/c17.py)
 
 
 def clause_schemas(S):
@@ -926,7 +933,7 @@ def clause_schemas(S):
     cl = inv_clauses(S.copy(), *BOUND)
     out = []
     for name, f in cl.items():
-        if not EXTENDED and name.startswith(("I14_", "I15_")):
+        if not EXTENDED and name.startswith(("I14_", "I15_", "I16_")):
             continue
         if name not in _clause_vars:
             _clause_vars[name] = [n for n, v in enumerate(BOUND) if _mentions(f, v)]
